@@ -196,6 +196,18 @@ theorem c04_conforms (H : Bytes → Bytes) (t : Cell) (wf : TreeWF H t) (ty : Ty
     ValidOrder p ord ∧ ∃ bs, p.toBoc fuel o = some bs ∧ strictParse H bs = some [toSCell t] :=
   strictParse_toBoc H t wf ty p hb nc fuel ord h o hv hn hP
 
+/-- **C04 for ANY valid order** (the statement of DESIGN §6 C04: `∀ ord, ValidOrder t ord → strictParse (emit (flatten t ord) opts) = [t]`):
+whatever valid order of the distinct cells an implementation picks — root first, each distinct cell once, references
+strictly forward — looking up the reference indices and laying the records out as `to_boc` does gives bytes the strict
+reader accepts and that denote `[t]`.  (A harmless change of traversal order in `Cell.order` cannot break conformance.) -/
+theorem c04_conforms_any_order (H : Bytes → Bytes) (t : Cell) (wf : TreeWF H t) (ty : Typed t) (p : PCell)
+    (hb : Cell.build H t = some p) (nc : NoCollision p) (ord : List PCell) (vo : ValidOrder p ord)
+    (o : Opts) (hv : o.valid = true) (hn : ord.length < 2 ^ 32)
+    (hP : (payloadOf (sizeW (orderRecs ord)) (orderRecs ord)).length * 2 < 2 ^ 64) :
+    ∃ recs bs, flattenCells (indexMap ord) ord = some recs ∧ emit recs o = some bs ∧
+      strictParse H bs = some [toSCell t] :=
+  strictParse_anyOrder H t wf ty p hb nc ord vo o hv hn hP
+
 /-- the same with termination: the tree can be built, `Cell.order` returns with the driver's fuel, and (within the format's
 size limits) the emitted bytes are accepted and denote `[t]`. -/
 theorem c04_conforms_total (H : Bytes → Bytes) (t : Cell) (wf : TreeWF H t) (ty : Typed t) :
